@@ -65,6 +65,17 @@ func (e *Env) ResetCache() {
 // Run executes gts with the given arguments; stdin is always bound (nil means
 // an empty stdin). extra are additional environment entries.
 func (e *Env) Run(args []string, stdin []byte, extra []string, timeout time.Duration) Result {
+	return e.run(args, stdin, -1, extra, timeout)
+}
+
+// RunFile is Run with stdin bound to a regular file (as in `gts cmd < file`)
+// whose read position is offset bytes into it (0: the usual case; > 0: an
+// earlier reader of the same descriptor has consumed a part).
+func (e *Env) RunFile(args []string, stdin []byte, offset int, extra []string, timeout time.Duration) Result {
+	return e.run(args, stdin, offset, extra, timeout)
+}
+
+func (e *Env) run(args []string, stdin []byte, offset int, extra []string, timeout time.Duration) Result {
 	ctx, cancel := context.WithTimeout(context.Background(), timeout)
 	defer cancel()
 	cmd := exec.CommandContext(ctx, e.Bin, args...)
@@ -80,6 +91,21 @@ func (e *Env) Run(args []string, stdin []byte, extra []string, timeout time.Dura
 		stdin = []byte{}
 	}
 	cmd.Stdin = bytes.NewReader(stdin)
+	if offset >= 0 {
+		p := filepath.Join(e.Root, "stdin.dat")
+		if err := os.WriteFile(p, stdin, 0644); err != nil {
+			return Result{Exit: -1, Err: err}
+		}
+		f, err := os.Open(p)
+		if err != nil {
+			return Result{Exit: -1, Err: err}
+		}
+		defer f.Close()
+		if _, err := f.Seek(int64(offset), 0); err != nil {
+			return Result{Exit: -1, Err: err}
+		}
+		cmd.Stdin = f
+	}
 	var out, errb bytes.Buffer
 	cmd.Stdout = &out
 	cmd.Stderr = &errb
